@@ -295,7 +295,24 @@ BENIGN = [
       (PR, "            aux_term = F.softplus(F.linear(v, self.weights_U, self.aux_bias)).sum(-1)\n\n            return -(vis_term + aux_term)",
        "            xu_ = F.linear(v, self.weights_U, self.aux_bias)\n            aux_term = torch.logaddexp(xu_, torch.zeros_like(xu_)).sum(-1)\n\n            return -(vis_term + aux_term)")),
     M("benign-dense-kron", ["C04", "C10", "C03", "C19"],
-      (UN, "    y = x.clone()\n    for s in reversed(range(len(n))):", "    if True:\n        U = matrices[0]\n        for m_ in matrices[1:]:\n            U = cplx.kronecker_prod(U, m_)\n        return cplx.matmul(U, x)\n    y = x.clone()\n    for s in reversed(range(len(n))):")),
+      (UN, """    y = x.clone()
+    for s in reversed(range(len(n))):
+        l //= n[s]  # noqa: E741
+        m = matrices[s]
+
+        for k in range(l):
+            for i in range(r):
+                slc = slice(k * n[s] * r + i, (k + 1) * n[s] * r + i, r)
+                temp = y[:, slc, ...]
+                y[:, slc, ...] = cplx.matmul(m, temp)
+        r *= n[s]
+
+    return y
+""", """    U = matrices[0]
+    for m_ in matrices[1:]:
+        U = cplx.kronecker_prod(U, m_)
+    return cplx.matmul(U, x)
+""")),
     M("benign-aux-before-hidden", ["C05", "C06", "C13", "C14"],
       (PR, "            self.sample_h_given_v(v, out=h)\n            self.sample_a_given_v(v, out=a)\n            self.sample_v_given_ha(h, a, out=v)",
        "            self.sample_a_given_v(v, out=a)\n            self.sample_h_given_v(v, out=h)\n            self.sample_v_given_ha(h, a, out=v)")),
@@ -310,7 +327,20 @@ BENIGN = [
       (NS, "            dim = np.arange(2 ** size)\n            space = ((dim[:, None] & (1 << np.arange(size))) > 0)[:, ::-1]\n            space = space.astype(int)",
        "            import itertools as _it\n            space = np.array(list(_it.product([0, 1], repeat=size)), dtype=int).reshape(2 ** size, size)")),
     M("benign-neg-always-randint", ["C07", "C06", "C12"],
-      (NS, "            if neg_batch_size == pos_batch_size:\n                neg_batch_perm = pos_batch_perm\n            else:", "            if False:\n                neg_batch_perm = pos_batch_perm\n            else:")),
+      (NS, """            if neg_batch_size == pos_batch_size:
+                neg_batch_perm = pos_batch_perm
+            else:
+                neg_batch_perm = torch.randint(
+                    train_samples.shape[0],
+                    size=(num_batches * neg_batch_size,),
+                    dtype=torch.long,
+                )
+""", """            neg_batch_perm = torch.randint(
+                train_samples.shape[0],
+                size=(num_batches * neg_batch_size,),
+                dtype=torch.long,
+            )
+""")),
     M("benign-regulariser-removed", ["C03", "C06"], (DM, "inv_UrhoU = 1 / (UrhoU + 1e-8)  # avoid dividing by zero", "inv_UrhoU = 1 / UrhoU")),
     M("benign-save-deepcopy-metadata", ["C11", "C17"], (NS, "        metadata = dict(metadata) if metadata else {}", "        import copy as _cp\n        metadata = _cp.deepcopy(metadata) if metadata else {}")),
     M("benign-sum-other-order", ["C16", "C13"],
